@@ -235,28 +235,37 @@ def explore(prop, binary, feats, seed, runs):
 
 
 def miri_pass(prop, workloads, schedules, seed0):
-    """Interleavings inside calls: caller threads free-run overlapping in-domain calls under Miri."""
+    """Interleavings inside calls: caller threads free-run overlapping in-domain calls under Miri.
+    One interpreter process per (workload seed, scheduler seed); up to 16 at a time (Miri's own
+    -Zmiri-many-seeds shares one process and scales badly here)."""
+    import concurrent.futures
     if subprocess.run(["cargo", "+nightly", "miri", "--version"], capture_output=True).returncode != 0:
         die("thorough tier needs cargo +nightly miri")
-    env = dict(os.environ, CARGO_TARGET_DIR=os.path.join(CACHE, "miri_target"), CARGO_NET_OFFLINE="true",
-               MIRIFLAGS=f"-Zmiri-many-seeds=0..{schedules} -Zmiri-preemption-rate=0.05")
-    execs = 0
-    for ws in range(seed0, seed0 + workloads):
+    base_env = dict(os.environ, CARGO_TARGET_DIR=os.path.join(CACHE, "miri_target"), CARGO_NET_OFFLINE="true")
+
+    def one(ws, sched):
+        env = dict(base_env, MIRIFLAGS=f"-Zmiri-seed={sched} -Zmiri-preemption-rate=0.05")
         cmd = ["cargo", "+nightly", "miri", "run", "--offline", "--manifest-path", os.path.join(SIM, "Cargo.toml"), "--",
                "parallel", "--property", prop, "--seed", str(ws)]
         r = subprocess.run(cmd, env=env, capture_output=True, text=True)
-        out = r.stdout + r.stderr
+        return ws, sched, r.returncode, r.stdout + r.stderr
+
+    jobs = [(ws, k) for ws in range(seed0, seed0 + workloads) for k in range(schedules)]
+    results = [one(*jobs[0])]  # the first run also builds; the others then only interpret
+    with concurrent.futures.ThreadPoolExecutor(max_workers=int(os.environ.get("MIRI_JOBS", "16"))) as ex:
+        results += list(ex.map(lambda j: one(*j), jobs[1:]))
+    execs = 0
+    for ws, sched, rc, out in sorted(results):
         execs += len(re.findall(r"^parallel pass", out, re.M))
-        if r.returncode != 0:
+        if rc != 0:
             if re.search(r"SCHEDULE-DEPENDENT|Undefined Behavior|Data race", out):
-                fs = re.search(r"FAILING SEED: (\d+)", out)
-                fs = fs.group(1) if fs else "?"
                 i = min(x for x in (out.find("SCHEDULE-DEPENDENT"), out.find("Undefined Behavior"), out.find("Data race")) if x >= 0)
                 args = ["parallel", "--property", prop, "--seed", str(ws)]
-                path = write_replay(prop, f"miri_workload{ws}_schedule{fs}", args, "full", out[i:i + 3000] + "\n", kind=f"miri -Zmiri-seed={fs} -Zmiri-preemption-rate=0.05")
-                raise Violation(path, f"value depends on how caller threads interleave inside calls (workload seed {ws}, scheduler seed {fs})")
+                path = write_replay(prop, f"miri_workload{ws}_schedule{sched}", args, "full", out[i:i + 3000] + "\n",
+                                    kind=f"miri -Zmiri-seed={sched} -Zmiri-preemption-rate=0.05")
+                raise Violation(path, f"value depends on how caller threads interleave inside calls (workload seed {ws}, scheduler seed {sched})")
             print(out[-3000:])
-            die(f"miri run failed for workload seed {ws}")
+            die(f"miri run failed for workload seed {ws}, scheduler seed {sched}")
     return execs
 
 
@@ -341,7 +350,7 @@ def main():
                 if len(samples) < 3:
                     samples += smp
         if tier == "thorough" or miri_only:
-            miri_execs = miri_pass(prop, int(os.environ.get("MIRI_WORKLOADS", "6")), int(os.environ.get("MIRI_SCHEDULES", "16")), seed)
+            miri_execs = miri_pass(prop, int(os.environ.get("MIRI_WORKLOADS", "16")), int(os.environ.get("MIRI_SCHEDULES", "16")), seed)
     except Violation as v:
         violation = v
     wall = time.time() - t0
@@ -354,7 +363,7 @@ def main():
             "evaluations": max(1, total.get("in_domain_executions", 0)),
             "distinct_nontrivial": max(2, total.get("keys_in_2plus_contexts", 0)) if total else 2,
             "rule": ("cases are library calls made inside seeded caller histories (sim/src/main.rs): one PRNG stream per (seed, property) draws texts over a mixed alphabet, "
-                     "the calls (half of the new ones inside this property's domain, the rest over all 14 entry-point kinds), which of 1-4 real caller threads makes each call, "
+                     "the calls (half of the new ones inside this property's domain, the rest over all 15 call kinds), which of 1-4 real caller threads makes each call, "
                      "whether its text sits in a reused buffer, a buffer shared by all threads or a fresh allocation, thread restarts, and at which invocation caller-supplied code panics. "
                      "evaluations = executions whose result this property pins. A case is (entry point, argument values); it is non-trivial when it was executed in at least two different contexts "
                      "(run, thread, storage, before/after a caught fault on that thread) so that its value was actually compared; distinct_nontrivial counts those keys, summed over seeds and feature sets. "
@@ -370,6 +379,7 @@ def main():
             "events_injected": {
                 "caller_buffer_reused_with_new_contents": total.get("buffer_reuses_new_contents", 0),
                 "same_shared_buffer_used_from_threads": total.get("shared_buffer_calls", 0),
+                "calls_made_with_a_long_lived_Options_object_mutated_between_calls": total.get("calls_with_reused_options_object", 0),
                 "thread_exit_and_respawn": total.get("worker_restarts", 0),
                 "panic_in_caller_code_armed": total.get("faults_armed", 0),
                 "panic_in_caller_code_fired_and_caught": total.get("faults_fired", 0),
